@@ -22,6 +22,11 @@ CHECKS = {
   "design_ref": "DESIGN.md section 3 C06",
   "note": TRUST + " Operation sequences are chosen by a seeded generator in the orchestrator (the specification judges, it does not enumerate here).",
   "technique": "TLA+ trace acceptor (TLC) over traces recorded from the implementation"},
+ "C14": {
+  "text": "Model-based conformance: SeqFuns.tla transcribes the language definitions of 47 sequence functions (find/position/count/remove/delete/substitute with -if/-if-not, remove-duplicates, search, mismatch, replace, fill, subseq, reverse, member/assoc/rassoc, sort/stable-sort/merge, set functions, every/some/notany/notevery, map/mapcar/reduce/concatenate) onto TLA+ sequences; TLC checks laws of the transcriptions as an invariant and enumerates every sequence up to the bound x every in-range keyword combination (random longer sequences with ties for the sorting family), printing the result the definition gives; the harness renders each row as list, vector and string calls against slip and the observed results are compared with TLC's (sort: any ordered permutation; set functions as sets).",
+  "design_ref": "DESIGN.md section 3 C14",
+  "note": TRUST + " Three open findings (missing -if-not variants, empty sequences rejected, fill bounds) are matched by the shape of the observed failure.",
+  "technique": "TLA+ transcription (TLC invariant + exhaustive parameter enumeration), results replayed against the code"},
  "C10": {
   "text": "Model-based conformance: Generic.tla is the reference (method table -> effective method) together with an implementation-shaped cache/fast-path model whose coherence TLC checks as invariants; TLC emits one defmethod/replace/remove-method/call history per transition of the bounded state graph (VIEW includes a ghost of the cache so call-before-definition paths are distinct states) plus random walks; every history is executed against slip built from /repo and every call's method trace is compared with the trace TLC computed.",
   "design_ref": "DESIGN.md section 3 C10",
